@@ -101,6 +101,7 @@ VARIANTS = {
     "array:nested": [[[]]],
     "int:2^31-1": 2147483647,
     "int:10^8": 100000000,
+    "int:10^6": 1000000,
     "real:overflow": Real("9" * 320 + ".5"),
 }
 SAMPLE = {"int": 7, "real": Real("2.5"), "string": Str(b"x"), "name": Name(b"Xq"), "array": [1, Name(b"A")], "dict": {b"K": 1}, "null": None, "bool": True}
@@ -202,6 +203,11 @@ def payload_faults(seed):
             yield ["cut", oid, p]
         for how in ("+1", "-1", "0", "huge"):
             yield ["length", oid, how]
+    # ToUnicode programs: the payload replaced by a CMap that is well-formed PostScript but says something extreme
+    for oid in sorted(seed.objects):
+        if isinstance(seed.objects[oid], Stream) and seed.roles.get(oid, "").startswith("ToUnicode"):
+            for k in range(len(CMAP_PROGRAMS)):
+                yield ["cmapprog", oid, k]
     # encrypted seeds: the faults above hit the plaintext (the writer encrypts afterwards); these hit the ciphertext
     if seed.encrypt is not None:
         for oid in sorted(seed.objects):
@@ -481,6 +487,10 @@ def apply_fault(seed, f):
         elif kind == "cut":
             obj.raw = raw[: f[2]]
             set_length(len(obj.raw))
+        elif kind == "cmapprog":
+            obj.raw = CMAP_HEAD + CMAP_PROGRAMS[f[2]] + CMAP_TAIL
+            obj.dict.pop(b"Filter", None)
+            set_length(len(obj.raw))
         else:
             n = len(raw)
             set_length({"+1": n + 1, "-1": max(0, n - 1), "0": 0, "huge": 10**9}[f[2]])
@@ -513,7 +523,7 @@ def role_of(seed, f):
         return "Container.<payload>"
     if kind in ("ecut", "eflip"):
         return r + ".<ciphertext>"
-    if kind in ("flip", "cut", "length"):
+    if kind in ("flip", "cut", "length", "cmapprog"):
         return r + ".<payload>"
     parts = []
     prev = None
@@ -555,6 +565,25 @@ def kind_of(f):
 
 
 # -------------------------------------------------------------------------------- execution
+CMAP_HEAD = b"/CIDInit /ProcSet findresource begin 12 dict begin begincmap /CMapName /X def /CMapType 2 def 1 begincodespacerange <00> <FF> endcodespacerange\n"
+CMAP_TAIL = b"\nendcmap CMapName currentdict /CMap defineresource pop end end\n"
+CMAP_PROGRAMS = [
+    b"1 beginbfrange <00000000> <0FFFFFFF> <0041> endbfrange",  # a range of 2^28 codes
+    b"1 beginbfrange <00> <03> <FFFFFFFF> endbfrange",  # destination overflows 32 bits
+    b"1 beginbfrange <00> <03> <FFFFFFFFFFFFFFFE> endbfrange",
+    b"1 begincidrange <00000000> <0FFFFFFF> 0 endcidrange",
+    b"1 begincidrange <00> <7F> 2147483647 endcidrange",
+    b"1 beginbfrange <0000> <FFFF> [<0041>] endbfrange",  # list shorter than the range
+    b"1 beginbfrange <41> <40> <0041> endbfrange",  # end before start
+    b"1 beginbfchar <41> <D800> endbfchar 1 beginbfchar <42> <DC00DC00> endbfchar",  # lone surrogates
+    b"1 beginbfchar <41> <> endbfchar 1 beginbfrange <> <> <> endbfrange",  # empty strings
+    b"/X usecmap /Adobe-Identity-UCS usecmap /H usecmap /Identity-H usecmap",
+    b"1 begincodespacerange <00> <FFFFFFFFFF> endcodespacerange 1 beginbfchar <4142434445> <0041> endbfchar",
+    b"100000 beginbfchar <41> <0041> endbfchar",
+    b"begincmap begincmap endcmap 1 beginbfchar <41> <0042> endbfchar",
+    b"1 beginbfrange <41> <43> [/A /uni0041 /u110000] endbfrange 1 beginbfchar <44> /Euro endbfchar",
+    b"1 beginnotdefrange <00> <FF> 0 endnotdefrange 1 beginbfrange <00> <FF> 0 endbfrange",
+]
 DENSE_ROLES = ("FontFile", "JBIG2Globals", "Image:JBIG2", "Image:CCITT", "ToUnicode", "CMapStream")
 IMAGE_SEEDS = ("images", "forms-images", "filters")
 
@@ -702,7 +731,7 @@ def run(tape, ctx, item=None):
     devs = []
     fk, role = kind_of(f), role_of(seed, f)
     ctx.fault(f[0] if f[0] not in ("replace", "ref", "variant") else fk)
-    ctx.probe({"truncate": "truncation", "replace": "replace", "variant": "replace", "xrefcycle": "ref-loop", "prevloop": "ref-loop", "xrefstmloop": "ref-loop", "inline": "replace", "cdict": "replace", "ccut": "payload", "lengthref": "ref-loop", "remove": "remove", "ref": "ref-loop" if f[0] == "ref" and f[3][:3] in ("loo", "rho") else "replace", "flip": "payload", "cut": "payload", "length": "payload", "cflip": "payload", "ecut": "payload", "eflip": "payload"}[f[0]])
+    ctx.probe({"truncate": "truncation", "replace": "replace", "variant": "replace", "xrefcycle": "ref-loop", "prevloop": "ref-loop", "xrefstmloop": "ref-loop", "inline": "replace", "cdict": "replace", "ccut": "payload", "lengthref": "ref-loop", "remove": "remove", "ref": "ref-loop" if f[0] == "ref" and f[3][:3] in ("loo", "rho") else "replace", "flip": "payload", "cut": "payload", "length": "payload", "cmapprog": "payload", "cflip": "payload", "ecut": "payload", "eflip": "payload"}[f[0]])
     outcomes = []
     for name, fn in entry_points(data, seed.name, f, ctx.tier):
         # (the page-by-page loop interprets every page four times: its budget is four single passes)
